@@ -328,6 +328,44 @@ func aliasesOf(v ssa.Value) []ssa.Value {
 	return out
 }
 
+// wideAliases: aliasesOf plus every load of a local cell whose only store is v (a value cached in a variable that is
+// assigned once and tested later in other blocks).
+func wideAliases(v ssa.Value) []ssa.Value {
+	out := aliasesOf(v)
+	refs := v.Referrers()
+	if refs == nil {
+		return out
+	}
+	for _, r := range *refs {
+		st, ok := r.(*ssa.Store)
+		if !ok || st.Val != v {
+			continue
+		}
+		al, ok := st.Addr.(*ssa.Alloc)
+		if !ok {
+			continue
+		}
+		n := 0
+		for _, cr := range *al.Referrers() {
+			if s2, ok := cr.(*ssa.Store); ok && s2.Addr == ssa.Value(al) {
+				n++
+			}
+			if _, ok := cr.(*ssa.MakeClosure); ok {
+				n += 2
+			}
+		}
+		if n != 1 {
+			continue
+		}
+		for _, cr := range *al.Referrers() {
+			if ld, ok := cr.(*ssa.UnOp); ok && ld.Op == token.MUL && ld.X == ssa.Value(al) {
+				out = append(out, ld)
+			}
+		}
+	}
+	return out
+}
+
 // loadSeesStore: ld certainly observes st's value (same block, later, no store in between).
 func loadSeesStore(ld *ssa.UnOp, st *ssa.Store) bool {
 	if ld.Block() != st.Block() {
